@@ -113,6 +113,7 @@ type Specs struct {
 	Errors    []string
 	Enumerate []EnumDecl
 	Bounded   []string
+	Immutable map[string]bool // "ice.Agent.field": never changed by wildcard havocs; stores enumerated
 }
 
 type EnumDecl struct {
@@ -282,7 +283,7 @@ func takeProps(body string) (props []string, label string, rest string) {
 }
 
 func parseSpecs(lines []ContractLine) *Specs {
-	S := &Specs{Contracts: map[string]*Contract{}, Funcs: map[string]*SpecFunc{}, Ghosts: map[string]*GhostField{}, Consts: map[string]string{}}
+	S := &Specs{Contracts: map[string]*Contract{}, Funcs: map[string]*SpecFunc{}, Ghosts: map[string]*GhostField{}, Consts: map[string]string{}, Immutable: map[string]bool{}}
 	var cur *Contract
 	errf := func(l ContractLine, f string, a ...any) {
 		S.Errors = append(S.Errors, fmt.Sprintf("%s:%d: %s", l.File, l.Line, fmt.Sprintf(f, a...)))
@@ -380,6 +381,18 @@ func parseSpecs(lines []ContractLine) *Specs {
 				i := strings.LastIndex(f[0], ".")
 				S.Owners = append(S.Owners, OwnerDecl{Type: f[0][:i], Field: f[0][i+1:], Class: strings.Join(f[1:], " ")})
 			}
+		case "immutable":
+			// immutable Cxx pkg.Type.field in F1, F2: the field is stored only in the listed functions
+			// (constructors/options that run before the object is shared); wildcard havocs keep it.
+			props, _, rest := takeProps(body)
+			f := strings.Fields(rest)
+			if len(f) < 3 || f[1] != "in" {
+				errf(l, "bad immutable declaration")
+				continue
+			}
+			S.Immutable[f[0]] = true
+			S.Enumerate = append(S.Enumerate, EnumDecl{Props: props, Kind: "stores", Args: f, File: l.File, Line: l.Line, Src: "immutable " + rest})
+			cur = nil
 		case "enumerate":
 			props, _, rest := takeProps(body)
 			f := strings.Fields(rest)
